@@ -308,3 +308,26 @@ def region_after(start_edges, stop_nodes):
             if t.id not in seen:
                 stack.append(t)
     return set(seen.values())
+
+
+def dominating_conditions(cfg, node, dom=None, labels=("next", "true", "false")):
+    """[(test_node, polarity)] : atomic branch conditions known to hold (polarity True) or fail (False)
+    whenever `node` executes - i.e. tests that dominate node and from whose other edge node is
+    unreachable without re-evaluating the test. Exceptional edges are ignored by default."""
+    dom = dom or dominators(cfg)
+    out = []
+    byid = {n.id: n for n in cfg.live}
+    for did in dom[node.id]:
+        t = byid.get(did)
+        if t is None or t.kind not in ("test", "for") or t is node:
+            continue
+        via = {}
+        for lab in ("true", "false"):
+            starts = [x for x, l in t.succ if l == lab]
+            r = reach(starts, avoid=[t], labels=labels) if starts else set()
+            via[lab] = node in r
+        if via["true"] and not via["false"]:
+            out.append((t, True))
+        elif via["false"] and not via["true"]:
+            out.append((t, False))
+    return out
